@@ -317,6 +317,21 @@ def patch_locks():
 
 # ----------------------------------------------------------------------------- single-thread tracing / faults
 
+SUSPENDED = [0]
+
+
+class untraced:
+    """Harness bookkeeping that happens to run library code (projecting a KeyedList iterates it, building an argument constructs a
+    spec class) inside a traced region: its lines are neither counted nor used as fault points."""
+
+    def __enter__(self):
+        SUSPENDED[0] += 1
+
+    def __exit__(self, *exc):
+        SUSPENDED[0] -= 1
+        return False
+
+
 class LineTracer:
     """Runs fn() in the calling thread under settrace; counts library line events, optionally raises
     InjectedFault at the n-th one, and feeds an Observer."""
@@ -329,6 +344,8 @@ class LineTracer:
 
     def _local(self, frame, event, arg):
         if event == "line":
+            if SUSPENDED[0]:
+                return self._local
             self.lines += 1
             self.obs.on_line(0, frame)
             if self.fault_at is not None and self.lines == self.fault_at:
